@@ -1,8 +1,11 @@
 package checks
 
 import (
+	"bytes"
+	"os"
 	"strings"
 
+	"verif/internal/instr"
 	"verif/internal/vc"
 )
 
@@ -85,5 +88,44 @@ func outOrder(c *Ctx, prop string) {
 	if prop != "C09" {
 		sub.Relabel(func(sig string) string { return prop + strings.TrimPrefix(sig, "C09") })
 	}
+	c.R.Merge(sub, func(sig string) bool { return strings.HasPrefix(sig, prop+":") })
+}
+
+// oneKey: concurrent read- and write-throughs of ONE key through the real RemoteWrapper over the real
+// FileSystemCache; every file-system call of fs.go is a scheduling point (the crash-point instrumenter's
+// points, bound to the scheduler instead of the fault injector).
+func oneKey(c *Ctx, prop string) {
+	ov := schedOverlay(c, "sched-rthrough", []string{"internal/caching/backends/remote_wrapper.go"}, []string{"rthrough"})
+	if ov == nil {
+		return
+	}
+	const fsGo = "internal/caching/backends/fs.go"
+	src, err := os.ReadFile(vc.SourceFor(fsGo))
+	if err != nil {
+		c.R.BrokenCheck("%v", err)
+		return
+	}
+	out, n, err := instr.InsertCrashPoints(fsGo, src)
+	if err != nil || n == 0 {
+		c.R.BrokenCheck("instrumenting %s: %d points, %v", fsGo, n, err)
+		return
+	}
+	out = bytes.Replace(out, []byte(`import "grog/internal/zverif/vfault"`), []byte(`import vfault "grog/internal/zverif/vs"`), 1)
+	if err := ov.AddContent("sched-rthrough", fsGo, out); err != nil {
+		c.R.BrokenCheck("overlay: %v", err)
+		return
+	}
+	c.R.Set("one_key_fs_scheduling_points", n)
+	bin, err := vc.BuildHarnessTest("rthrough", ov, "rthrough", false)
+	if err != nil {
+		c.R.BrokenCheck("%v", err)
+		return
+	}
+	bound, budget := "2", "20"
+	if c.Thorough {
+		bound, budget = "3", "200"
+	}
+	sub := vc.NewReport(prop, c.Tier)
+	vc.RunHarnessShards(sub, vc.HarnessRun{Bin: bin, Env: map[string]string{"VERIF_TIER": c.Tier, "VERIF_BOUND": bound, "VERIF_BUDGET_S": budget, "GOMAXPROCS": "1"}, Tag: "onekey"}, 8, 8)
 	c.R.Merge(sub, func(sig string) bool { return strings.HasPrefix(sig, prop+":") })
 }
